@@ -189,6 +189,30 @@ def _run_case(case):
         res = check_stream(Rig(), frames, cuts, 0)
         if res is not None:
             out.fail("incoming", "incoming:" + res[0], res[1])
+        elif case.get("second_connection"):
+            # a second stack (another account's connection) receives its own stream in between: each framing layer keeps its own
+            # reassembly state
+            a, b = Rig(), Rig()
+            other = [bytes(reversed(f)) + b"\x5a" for f in frames]
+            sa, sb = stream_of(frames), stream_of(other)
+            pts = [c for c in cuts] + [len(sa)]
+            prev = 0
+            pb = 0
+            try:
+                for c in pts:
+                    a.feed(sa[prev:c])
+                    nb = min(len(sb), pb + max(1, (c - prev)))
+                    b.feed(sb[pb:nb])
+                    prev, pb = c, nb
+                if pb < len(sb):
+                    b.feed(sb[pb:])
+            except Exception as e:
+                out.fail("incoming", "incoming:two_connections:exception", {"error": repr(e)[:200]})
+                return out
+            out.label("second_connection_interleaved")
+            if [bytes(x) for x in a.top.got] != frames or [bytes(x) for x in b.top.got] != other:
+                out.fail("incoming", "incoming:two_connections:frames_differ",
+                         {"first": [len(x) for x in a.top.got], "second": [len(x) for x in b.top.got], "expected": [len(f) for f in frames]})
         out.info = {"inside": bool(inside)}
         return out
     if sub == "outgoing":
@@ -286,7 +310,7 @@ def stream_strategy(tier):
         if draw(st.integers(0, 9)) == 0 and L <= 400:
             cuts = list(range(1, L))  # byte by byte
         fills = draw(st.lists(st.integers(0, 3), min_size=1, max_size=3))
-        return {"sub": "stream", "lens": ls, "fills": fills, "cuts": sorted(set(cuts))}
+        return {"sub": "stream", "lens": ls, "fills": fills, "cuts": sorted(set(cuts)), "second_connection": draw(st.integers(0, 3)) == 0}
     return build()
 
 
